@@ -44,7 +44,7 @@ where
     let mut steps = 0usize;
     loop {
         match execute_current_instruction(data) {
-            Err(e) => return Err(format!("execute: Err({:?}) message={:?}", e.get_type(), e.get_message())),
+            Err(e) => return Err(format!("execute: Err({:?}) message={:?} debug={}", e.get_type(), e.get_message(), format!("{:?}", e).chars().take(300).collect::<String>().replace('"', "`"))),
             Ok(info) => {
                 if info.get_state() == SimpleRuntimeState::End {
                     break;
